@@ -6,14 +6,15 @@ PROPS = {
     "C15": dict(
         engine="lowering",
         check_targets=["Check/CheckLow.vo"],
-        proof_targets=["Props/C15.vo"],
-        theorems=[("C15", "C15_lowering_exact"), ("C15", "C15_checker_sound"), ("C15", "C15_untouched_without_plan")],
+        proof_targets=["Props/C15.vo"], gen=["GenEmit", "GenAddInstr"],
+        theorems=[("C15", "C15_lowering_exact"), ("C15", "C15_checker_sound"), ("C15", "C15_untouched_without_plan"), ("C15", "C15_translated_emission_is_the_model")],
         quick=dict(n=1600), thorough=dict(n=40000), per_shard=400,
         rule="random well-bracketed bodies (nesting <=5, all branch kinds, return/unreachable/throw/return_call) with 1-7 "
              "before/after/alternate/removal injections through ModuleIterator::inject, ModuleIterator::inject_at, "
              "FunctionModifier::inject and FunctionModifier::inject_at; non-trivial = plan non-empty; distinct by hash of the case term",
         level_text="Proof (Coq, all bodies and all plans, no size bound) that the model of add_instr/inject + resolve + emission "
-                   "equals the specification spec15; the model is tied to /repo's working tree by differential evaluation inside Coq "
+                   "equals the specification spec15; the emission loop of encode_internal, has_instr and InstrumentationFlag::add_instr are translated from /repo/src on every check (Gen/GenEmit.v, Gen/GenAddInstr.v) and proved equal "
+                   "to the model's emit / has_instr / add_instr (C15_translated_emission_is_the_model); the model is also tied to /repo's working tree by differential evaluation inside Coq "
                    "(model =? observed, and spec15 =? observed) on generated (body, plan) pairs through all four API paths.",
         level_note="Trusted: Coq kernel + vm_compute; the harness (generator, wasmparser decoding, case printer); that the sampled "
                    "correspondence extends to unsampled inputs. Modelled, not verified: src/ir/types.rs InstrumentationFlag::add_instr, "
